@@ -32,7 +32,15 @@ def build(chk):
         first = [l for l in err.splitlines() if "error" in l][:1]
         chk.diverge("InsertCopy", "not_compiling", dict(tu="fixed_vector<int> v(2); int x = 5; v.insert(x);"),
                     "appending an lvalue with fixed_vector::insert(const T&) does not compile: %s" % (first[0][:300] if first else ""))
-    return vc.build_driver("fv_driver" + ("_lv" if ok else ""), ["fv_driver.cpp"], flags=flags), ok
+    name = "fv_driver" + ("_lv" if ok else "")
+    r = vc.build_driver(name, ["fv_driver.cpp"], flags=flags, allow_fail=True)
+    if r[0] is not None:
+        return r[0], ok
+    # feeding the range operations from a single-pass input iterator is an optional call form: if it does not compile
+    # against this tree the driver is built without it (noted; the forms that are left still decide)
+    vc.log("fv_driver: range operations do not accept a single-pass input iterator on this tree, building without that call form: " + " ".join(l for l in r[1].splitlines() if "error" in l)[:300])
+    chk.notes.append("range operations from a single-pass input iterator do not compile against this tree: that call form was left out")
+    return vc.build_driver(name + "_nosp", ["fv_driver.cpp"], flags=flags + ["-DVERIF_NO_SINGLEPASS"]), ok
 
 
 def classify(kind):
